@@ -645,3 +645,129 @@ def _iter_cmp(op):
 
 for _op in ('==', '!=', '<', '<=', '>', '>=', '-', '+'):
     FREE['operator' + _op] = _iter_cmp(_op)
+
+
+# -------------------------------------------------------------------------------------------------
+# iterator algorithms: std::copy, std::fill, std::reverse over contiguous iterators (PtrVal, step 1) and
+# dsplib::SliceIterator (pointer + step; the iterator class itself is verified code, its operator++ /
+# operator* / operator!= are what the algorithm's loop executes: "while (first != last) { *out++ = *first++; }")
+def _as_strided(ex, it):
+    if isinstance(it, RefVal):
+        it = ex.read(it.path)
+    if isinstance(it, PtrVal):
+        return it.path, it.off, z3.IntVal(1)
+    if isinstance(it, SVal) and 'ptr_' in it.f:
+        p = it.f['ptr_']
+        return p.path, p.off, it.f['step_']
+    raise Unsupported('iterator value %r' % (it,))
+
+
+def _vec_at(ex, path):
+    v = ex.read(path)
+    if isinstance(v, SVal) and set(v.f) == {'_vec'}:
+        return path.field('_vec'), v.f['_vec']
+    return path, v
+
+
+def _range_count(ex, foff, loff, step, n, what):
+    """number of increments after which first == last; the != driven loop terminates iff it exists"""
+    st = z3.simplify(step)
+    if z3.is_int_value(st) and st.as_long() == 1:
+        cnt = loff - foff
+        ex.oblige('termination', what + '.range', cnt >= 0, n)
+        return cnt
+    c = z3.Int(ex.fresh_name('cnt'))
+    cq = z3.Int('c!rc')
+    ex.oblige('termination', what + '.range', z3.Exists([cq], z3.And(cq >= 0, foff + cq * step == loff)), n)
+    ex.assume(z3.And(c >= 0, foff + c * step == loff))
+    return c
+
+
+def _strided_bounds(ex, off, step, cnt, ln, n, what):
+    st = z3.simplify(step)
+    if z3.is_int_value(st) and st.as_long() == 1:
+        ex.oblige('bounds', what, z3.Or(cnt == 0, z3.And(off >= 0, off + cnt <= ln)), n)
+        return
+    k = z3.Int('k!sb')
+    ex.oblige('bounds', what, z3.ForAll([k], z3.Implies(z3.And(0 <= k, k < cnt),
+                                                         z3.And(0 <= off + k * step, off + k * step < ln))), n)
+
+
+@free('copy')
+def _copy(ex, args, n):
+    fp, foff, fstep = _as_strided(ex, ex.ev(args[0]))
+    lp, loff, lstep = _as_strided(ex, ex.ev(args[1]))
+    outv = ex.ev(args[2])
+    op, ooff, ostep = _as_strided(ex, outv)
+    if fp is None or lp is None or op is None or not fp.same(lp):
+        raise Unsupported('std::copy over unrelated iterators')
+    cnt = _range_count(ex, foff, loff, fstep, n, 'copy')
+    sp, sv = _vec_at(ex, fp)
+    dp, dv = _vec_at(ex, op)
+    _strided_bounds(ex, foff, fstep, cnt, sv.len, n, 'copy.src')
+    _strided_bounds(ex, ooff, ostep, cnt, dv.len, n, 'copy.dst')
+    unit = all(z3.is_int_value(z3.simplify(s)) and z3.simplify(s).as_long() == 1 for s in (fstep, ostep))
+    if sv.el != dv.el:
+        raise Unsupported('std::copy with element conversion')
+    if unit:
+        if sp.same(dp):
+            # overlapping forward copy is only defined when the output does not start inside the source
+            ex.oblige('overlap', 'copy', z3.Or(cnt == 0, ooff <= foff, ooff >= foff + cnt), n)
+        nd = lam_copy(dv.data, ooff, sv.data, foff, cnt)
+    else:
+        if sp.same(dp):
+            raise Unsupported('strided std::copy within one array')
+        nd = tmap(lambda d: z3.Const(ex.fresh_name('cp'), d.sort()), dv.data)
+        k = z3.Int(ex.fresh_name('k!cp'))
+        j = z3.Int(ex.fresh_name('j!cp'))
+        from .values import tree_eq
+        ex.assume(z3.ForAll([k], z3.Implies(z3.And(0 <= k, k < cnt),
+                                            tree_eq(select(nd, ooff + k * ostep), select(sv.data, foff + k * fstep)))))
+        ex.assume(z3.ForAll([j], z3.Implies(z3.Not(S.INSLICE(ooff, ostep, cnt, j)),
+                                            tree_eq(select(nd, j), select(dv.data, j)))))
+    ex.write(dp, VecVal(dv.len, nd, dv.el))
+    if isinstance(outv, PtrVal):
+        return PtrVal(outv.path, outv.off + cnt, outv.el)
+    return outv
+
+
+@free('fill')
+def _fill(ex, args, n):
+    fp, foff, fstep = _as_strided(ex, ex.ev(args[0]))
+    lp, loff, lstep = _as_strided(ex, ex.ev(args[1]))
+    if fp is None or lp is None or not fp.same(lp):
+        raise Unsupported('std::fill over unrelated iterators')
+    val = ex.calls._val(ex, args[2])
+    cnt = _range_count(ex, foff, loff, fstep, n, 'fill')
+    dp, dv = _vec_at(ex, fp)
+    val = ex.coerce(val, dv.el)
+    _strided_bounds(ex, foff, fstep, cnt, dv.len, n, 'fill.dst')
+    st = z3.simplify(fstep)
+    j = z3.Int('j!fill')
+    if z3.is_int_value(st) and st.as_long() == 1:
+        nd = tmap(lambda d, x: z3.Lambda([j], z3.If(z3.And(j >= foff, j < foff + cnt), x, z3.Select(d, j))),
+                  dv.data, val)
+    else:
+        nd = tmap(lambda d: z3.Const(ex.fresh_name('fl'), d.sort()), dv.data)
+        k = z3.Int(ex.fresh_name('k!fl'))
+        jj = z3.Int(ex.fresh_name('j!fl'))
+        from .values import tree_eq
+        ex.assume(z3.ForAll([k], z3.Implies(z3.And(0 <= k, k < cnt), tree_eq(select(nd, foff + k * fstep), val))))
+        ex.assume(z3.ForAll([jj], z3.Implies(z3.Not(S.INSLICE(foff, fstep, cnt, jj)),
+                                             tree_eq(select(nd, jj), select(dv.data, jj)))))
+    ex.write(dp, VecVal(dv.len, nd, dv.el))
+    return None
+
+
+@free('reverse')
+def _reverse(ex, args, n):
+    a, b = ex.ev(args[0]), ex.ev(args[1])
+    if not (isinstance(a, PtrVal) and isinstance(b, PtrVal) and a.path.same(b.path)):
+        raise Unsupported('std::reverse over non-contiguous iterators')
+    dp, dv = _vec_at(ex, a.path)
+    ex.oblige('bounds', 'reverse', z3.And(a.off >= 0, a.off <= b.off, b.off <= dv.len), n)
+    j = z3.Int('j!rev')
+    nd = tmap(lambda d: z3.Lambda([j], z3.If(z3.And(j >= a.off, j < b.off), z3.Select(d, a.off + b.off - 1 - j),
+                                             z3.Select(d, j))), dv.data)
+    ex.write(dp, VecVal(dv.len, nd, dv.el))
+    return None
